@@ -94,6 +94,15 @@ def gen_case(rng, rich_criterion=False, small=False):
     elif style == "chaos":
         profile.update(p_fail=0.12, p_stop_ext=0.08, p_stopping=0.1, p_pause=0.25, p_stop=0.2, p_none=0.08,
                        p_resume=0.5, p_resume_bad=0.05, p_complete=0.2, p_first_report=0.5)
+    if rich_criterion and rng.random() < 0.08:
+        # the scheduler says "nothing to suggest" while long jobs are running; the criterion becomes true later
+        style = "exhaust_then_criterion"
+        profile.update(p_none=0.35, p_complete=0.01, p_fail=0.01, p_stop_ext=0.0, p_stopping=0.0, p_pause=0.0,
+                       p_stop=0.0, polls=rng.choice([10, 16, 25]), max_reports=2)
+        params["wait"] = False
+        params["criterion"] = rng.choice([dict(max_num_evaluations=rng.randint(4, 14)), dict(max_cost=rng.randint(8, 30) / 4.0),
+                                          dict(min_metric_value=rng.randint(1, 3) / 4.0), {}])
+    params["polls_budget"] = profile["polls"]
     if rich_criterion or rng.random() < 0.2:
         params["num_type"] = rng.choice(scripted.NUM_TYPES)
         if params["num_type"] in ("int", "np.int64"):
@@ -296,6 +305,30 @@ def check_c12(params, out):
         if last and last[-1][2] and any(ev[0] in ("s_suggest", "b_start", "b_resume", "cb_loop_start") for ev in st2):
             bad.append(("run() called again on the finished Tuner (stop condition held when the first run ended) enters the loop "
                         "again: %s" % ([ev[0] for ev in st2][:8],), dict(check="exit", event="second_run_enters_loop")))
+    # ---- the user's criterion / the failure limit re-evaluated at the end of EVERY iteration (whether or not the tuner
+    # looks at it there): once it holds, the loop ends (wait=False) / nothing is started any more (wait=True) -----------
+    ends = [i for i, ev in enumerate(tr) if ev[0] == "cb_loop_end"]
+    crit_nw = {k: v for k, v in crit.items() if k != "max_wallclock_time"}   # the clock is only read by the criterion
+    for k, (pos, obs) in enumerate(zip(ends, out.get("loop_obs") or [])):
+        o = dict(obs, wallclock=0.0, evaluations=0, cost=0.0, min_metrics={}, max_metrics={})
+        must = [f for f, v in expected_criterion(crit_nw, o).items() if v is True]
+        if obs.get("extra"):
+            must.append("extra_user_criterion")
+        if obs["failed"] > params["max_failures"]:
+            must.append("max_failures")
+        if not must:
+            continue
+        later = tr[pos + 1:]
+        went_on = any(ev[0] == "cb_loop_start" for ev in later) if not params["wait"] else \
+            any(ev[0] in ("s_suggest", "b_start", "b_resume") for ev in later)
+        if went_on:
+            bad.append(("at the end of iteration %d the stop condition holds (%s; %s) but the run went on for %d more "
+                        "iterations (suggest had returned None before: %s)" % (
+                            k, must[0], {a: obs[a] for a in ("started", "completed", "finished", "failed", "truth", "extra")},
+                            sum(1 for ev in later if ev[0] == "cb_loop_start"),
+                            any(ev[0] == "s_suggest" and ev[2] is None for ev in tr[:pos])),
+                        dict(check="exit", event="stop_condition_holds_but_loop_goes_on", field=must[0])))
+        break
     # ---- the StoppingCriterion itself, re-evaluated from its documentation ---------------------------
     bad.extend(check_stopping_criterion(params, out))
     # ---- finally block ----------------------------------------------------------------------
